@@ -74,6 +74,33 @@ def spec_log_thread(ck, nevents=3):
                 outs.append((s2, C.mk_option(ctx.ex, C.mk_option(ctx.ex, Ref(s2.alloc(Opaque('ContextProps', ('record', i))), ())))))
         return outs
 
+    def try_recv(ctx):
+        """try_recv(): the next event if it is already queued (it never reports `closed`: that is Err(Disconnected)), or
+        Err(Empty) -- the event then comes with a later recv"""
+        ex_, st_ = ctx.ex, ctx.st
+        res = ex_.si.enums['Result']
+        i = st_.env.get('nrecv', 0)
+        outs = []
+        empty = st_.fork()
+        empty.trace.append(('try_recv-empty', i))
+        outs.append((empty, Agg('Result', {}, 1, {1: {0: Opaque('TryRecvError', 'empty')}}, res)))
+        if i < nevents:
+            for idx, nm in enumerate(EVENTS):
+                if nm == 'closed':
+                    continue
+                s2 = st_.fork()
+                try:
+                    ex_.assume(s2, kinds[i] == BV(idx, 64))
+                    if not ex_.feasible(s2):
+                        continue
+                except Exception:
+                    continue
+                s2.env['nrecv'] = i + 1
+                s2.trace.append(('event', i, nm))
+                ev = C.mk_option(ex_, None) if nm == 'rotate' else C.mk_option(ex_, Ref(s2.alloc(Opaque('ContextProps', ('record', i))), ()))
+                outs.append((s2, Agg('Result', {}, 0, {0: {0: ev}}, res)))
+        return outs
+
     def to_string(ctx):
         rec = ctx.ex.deref(ctx.st, ctx.args[1])
         i = rec.tag[1] if isinstance(rec, Opaque) and isinstance(rec.tag, tuple) else 0
@@ -82,7 +109,7 @@ def spec_log_thread(ck, nevents=3):
 
     def bufwriter_new(ctx):
         return ctx.args[0]
-    for rx, f in ((r'^log_open$', log_open), (r'mpsc::Receiver::<.*>::recv$', recv), (r'<dyn Formater as Formater>::to_string$', to_string),
+    for rx, f in ((r'^log_open$', log_open), (r'mpsc::Receiver::<.*>::recv$', recv), (r'mpsc::Receiver::<.*>::try_recv$', try_recv), (r'<dyn Formater as Formater>::to_string$', to_string),
                   (r'^tokio::io::BufWriter::<.*>::new$', bufwriter_new)):
         ex.overrides.append((re.compile(rx), f))
     ex.inputs = dict([('event%d' % i, kinds[i]) for i in range(nevents)] + [('record%d_cannot_be_formatted' % i, fmt_fails[i]) for i in range(nevents)])
@@ -141,7 +168,10 @@ def replay_plan(ob):
         return 'accesslog', [case], lambda o: bool(o.get('task_ended_before_channel_closed'))
     if ob.label.startswith('C16/access-log/'):
         # only the run that ends with a rotation: the writer flushes nowhere else, so without it the file legitimately lags behind
-        return 'accesslog', [case2], lambda o: o.get('all_records_logged_once') is False and not o.get('task_ended_before_channel_closed')
+        burst = {'driver': 'log_thread', 'args': dict(case2['args'], burst=True)}
+        # a standard backlog as well: records queued on both sides of a rotation
+        backlog = {'driver': 'log_thread', 'args': {'events': ['record', 'rotate', 'record', 'record', 'rotate'], 'format_fails': [], 'burst': True}}
+        return 'accesslog', [case2, burst, backlog], lambda o: o.get('all_records_logged_once') is False and not o.get('task_ended_before_channel_closed')
     return 'accesslog', [case], lambda o: bool(o.get('panicked'))
 
 
